@@ -543,6 +543,15 @@ impl<'tcx> Extractor<'tcx> {
                 }
             }
         }
+        // pointers to statics
+        if let Const::Val(ConstValue::Scalar(rustc_middle::mir::interpret::Scalar::Ptr(ptr, _)), _) = c {
+            let (prov, _off) = ptr.prov_and_relative_offset();
+            if let Some(rustc_middle::mir::interpret::GlobalAlloc::Static(def)) =
+                tcx.try_get_global_alloc(prov.alloc_id())
+            {
+                fields.push(format!("\"static\":{}", esc(&self.path(def))));
+            }
+        }
         // string constants
         if let Const::Val(cv @ ConstValue::Slice { .. }, _) = c {
             if let ty::Ref(_, inner, _) = t.kind() {
